@@ -271,6 +271,8 @@ FINDINGS = [
          what="lcd.progress with max_value <= 0 drew a full bar (host: empty), with an explicit width <= 0 the whole row (host: one cell)", cases=[]),
     dict(id="KF-C08-argument-unpacking", property="C08", status="fixed", commit="3441566",
          what="device calls with unpacked arguments (led.blink(**{\"duration_ms\": 7}), rgb.on(**{\"red\": 10}), SerialMonitor(**{\"baud_rate\": 57600})) were accepted and bound to the defaults", cases=[]),
+    dict(id="KF-C07-statement-after-multiline-docstring", property="C07", status="fixed", commit="b9f916c",
+         what="a statement written after ';' on the closing line of a multi-line docstring / parenthesised import vanished with the blanked lines", cases=[]),
     dict(id="KF-C14-lcd-rebind", property="C14", status="open", commit=None,
          what="one name bound first to a parallel LCD and later to an I2C LCD (or the reverse): both libraries are requested, but the emitter keeps only the first display (one header, one object); outside the documented style, like KF-C05-rebind",
          cases=c14_rebind_cases()),
